@@ -617,6 +617,42 @@ pub fn quiescent_stall(r: &RunResult, quiet: Duration) -> bool {
     r.end_us.saturating_sub(last_activity_us(&r.trace)) >= quiet.as_micros() as u64
 }
 
+/// The last `n` packets put on the wire, with SACK details - what a stalled association looked like.
+pub fn describe_trace_tail(tr: &[Ev<SClass, SctpInfo>], n: usize) -> String {
+    let cap: Vec<&Ev<SClass, SctpInfo>> = tr
+        .iter()
+        .filter(|e| e.phase == Phase::Captured && !matches!(e.class, SClass::Heartbeat | SClass::HeartbeatAck))
+        .collect();
+    let mut s = String::from("tail: ");
+    for e in cap.iter().skip(cap.len().saturating_sub(n)) {
+        let mut extra = String::new();
+        if let Some(p) = &e.info.pkt {
+            for c in &p.chunks {
+                if let Some(k) = c.as_sack() {
+                    extra.push_str(&format!(" sack(cum={},rwnd={},gaps={})", k.cum_tsn, k.a_rwnd, k.gaps.len()));
+                } else if c.ctype == crate::net::wire::CT_DATA && c.value.len() >= 12 {
+                    let tsn = u32::from_be_bytes([c.value[0], c.value[1], c.value[2], c.value[3]]);
+                    let sid = u16::from_be_bytes([c.value[4], c.value[5]]);
+                    extra.push_str(&format!(" data(tsn={},sid={},fl={:02x})", tsn, sid, c.flags));
+                } else if c.ctype == crate::net::wire::CT_FORWARD_TSN && c.value.len() >= 4 {
+                    let t = u32::from_be_bytes([c.value[0], c.value[1], c.value[2], c.value[3]]);
+                    extra.push_str(&format!(" fwd(cum={})", t));
+                }
+            }
+        }
+        s.push_str(&format!(
+            "[{}us {:?}->{:?} {:?}{}{}] ",
+            e.t_us,
+            e.from,
+            e.from.other(),
+            e.class,
+            extra,
+            e.action.as_ref().map(|a| format!(" FAULT={:?}", a)).unwrap_or_default()
+        ));
+    }
+    s
+}
+
 pub fn describe_trace(tr: &[Ev<SClass, SctpInfo>], max: usize) -> String {
     let mut s = String::new();
     for e in tr.iter().take(max) {
